@@ -694,6 +694,237 @@ def run_e2e(ctx, res, n):
               "" if discarded <= max(2, len(fns) // 40) else "%d of %d generated functions do not run clean" % (discarded, len(fns)))
 
 
+# ================================================================================================================
+# constructor forms: model (ctorSize) vs --dump, reference (ctorRef) vs g++, facts vs native sizes
+# ================================================================================================================
+CTOR_TYPES = {"string": ["std::string", "std::wstring"], "seq": ["std::vector<int>", "std::deque<int>", "std::list<int>"],
+              "set": ["std::set<int>"], "uset": ["std::unordered_set<int>"], "multiset": ["std::multiset<int>"]}
+CTOR_FORMS = {
+    "string": ["nik3 nck97", "niu2 nck97", "nik4 nik65", "nik65", "nck97", "nck97 nck98", "nck97 nck98 nck99 nck100", "nik72 nik105 nik33",
+               "nik3 nck97 nck98", "ncu99 nck97", "l3", "l0", "l6 nik3", "l4 nik4", "p5", "p5 q5,2k", "p5 q5,5k", "b4,3k e", "c6,6k",
+               "c6,6k nik1", "c6,6k nik1 nik100", "c6,6k nik1 nik2", "c6,6k nik5 nik3", "c6,6k nik6 nik0", "c6,6k nik0 nik6", "c6,6k niu2 nik1"],
+    "seq": ["nik3", "nik0", "niu2", "nik3 nik7", "nik2 niu3", "niu3 nik1", "nik1 nik2 nik3", "nik3 nik0", "niu2 niu3 nik1", "nik1 nik2 nik3 nik4 nik5",
+            "nck97 nik3", "a4 z4,3", "a4 z4,0", "b4,3k e", "b0,0k e", "c4,3k", "c0,0k"],
+    "set": ["nik1 nik1 nik2", "nik1 nik2 nik3", "nik5", "niu2 niu3", "niu2 niu2", "b4,3k e", "b3,3k e", "c3,3k"],
+    "uset": ["nik1 nik1 nik2", "nik1 nik2 nik3", "nik16", "nik0", "niu2 niu2", "b4,3k e", "b3,3k e", "c3,3k"],
+    "multiset": ["nik1 nik1 nik2", "niu2 niu2", "b4,3k e", "c3,3k", "a4 z4,4"],
+}
+# statements outside the constructor model, native comparison only: (tag, declaration / statements with {c} = the probed variable)
+CTOR_EXTRA = [
+    ("string-assign-ptr-plus", 'const char *p{i} = "hello"; std::string {c}; {c} = p{i} + 2;'),
+    ("string-append-concat", 'std::string t{i} = "abcdef"; std::string {c} = "ab"; {c}.append(t{i} + t{i});'),
+    ("string-plus-assign-concat", 'std::string t{i} = "abcdef"; std::string {c} = "ab"; {c} += t{i} + t{i};'),
+    ("set-from-pointer-range", "int arr{i}[4] = {{1, 2, 2, 3}}; std::set<int> {c}(arr{i}, arr{i} + 4);"),
+    ("map-braced-pairs-dup", "std::map<int, int> {c}{{{{1, 2}}, {{1, 3}}}};"),
+    ("map-braced-pairs", "std::map<int, int> {c} = {{{{1, 2}}, {{2, 3}}, {{3, 4}}}};"),
+    ("unordered-map-bucket-count", "std::unordered_map<int, int> {c}(16);"),
+    ("unordered-map-braced-dup", "std::unordered_map<int, int> {c}{{{{1, 2}}, {{1, 3}}}};"),
+    ("map-from-vector-of-pairs", "std::vector<std::pair<int, int>> vp{i} = {{{{1, 2}}, {{1, 3}}}}; std::map<int, int> {c}(vp{i}.begin(), vp{i}.end());"),
+    ("multimap-braced", "std::multimap<int, int> {c}{{{{1, 2}}, {{1, 3}}}};"),
+    ("vector-copy-assign", "std::vector<int> src{i} = {{1, 2, 3}}; std::vector<int> {c} = src{i};"),
+    ("string-from-literal-assign", 'std::string {c} = "hello";'),
+    ("wstring-count-char", "std::wstring {c}(3, L'a');"),
+    ("vector-of-char-braced", "std::vector<char> {c}{{3, 'a'}};"),
+    ("vector-of-char-parens", "std::vector<char> {c}(3, 'a');"),
+    ("string-braced-equals", "std::string {c} = {{3, 'a'}};"),
+    ("deque-braced-equals", "std::deque<int> {c} = {{2, 7}};"),
+    ("list-count-value", "std::list<int> {c}(2, 7);"),
+    ("string-substr-pos-only", 'std::string t{i} = "abcdef"; std::string {c}(t{i}, 2);'),
+    ("string-move", 'std::string t{i} = "abcdef"; std::string {c}(std::move(t{i}));'),
+]
+CTOR_KEYS = {   # excluded form -> known-finding key
+    ("string", 3): "string-substring-ctor-count-beyond-end",
+    ("uset", 1): "unordered-bucket-count-as-size",
+    ("string", 1): "string-braced-single-integer-as-count",
+    ("set", 2): "unique-associative-iterator-pair-counted-with-duplicates",
+    ("uset", 2): "unique-associative-iterator-pair-counted-with-duplicates",
+}
+EXTRA_KEYS = {"string-assign-ptr-plus": "string-assign-pointer-arithmetic-as-concatenation",
+              "string-append-concat": "string-append-of-concatenation-length",
+              "set-from-pointer-range": "unique-associative-iterator-pair-counted-with-duplicates",
+              "unordered-map-bucket-count": "unordered-bucket-count-as-size",
+              "map-from-vector-of-pairs": "unique-associative-iterator-pair-counted-with-duplicates",
+              "map-braced-pairs-dup": "unique-associative-initializer-list-counted-with-duplicates",
+              "unordered-map-braced-dup": "unique-associative-initializer-list-counted-with-duplicates"}
+
+
+def ctor_key(kind, braces, args, excluded):
+    if not excluded:
+        return None
+    toks = args.split()
+    if kind in ("set", "uset") and all(t[0] == "n" for t in toks) and braces:
+        return "unique-associative-initializer-list-counted-with-duplicates"
+    return CTOR_KEYS.get((kind, len(toks)))
+
+
+def render_ctor(kind, ty, braces, args, i):
+    """-> (statements declaring what the arguments need, declaration of c<i>) for one constructor call"""
+    wide = ty == "std::wstring"
+    L = "L" if wide else ""
+    pre, rendered = [], []
+    toks = args.split()
+    for t in toks:
+        if t[0] == "n":
+            isch, known, v = t[1] == "c", t[2] == "k", int(t[3:])
+            if known:
+                rendered.append("%s'%s'" % (L, chr(v)) if isch else str(v))
+            elif isch:
+                pre.append("%s ch%d = static_cast<%s>(a + 97);" % ("wchar_t" if wide else "char", i, "wchar_t" if wide else "char"))
+                rendered.append("ch%d" % i)
+            else:
+                rendered.append("a" if v == 2 else "b")
+        elif t[0] == "l":
+            rendered.append('%s"%s"' % (L, "abcdefgh"[:int(t[1:])]))
+        elif t[0] == "p":
+            pre.append('const %s *p%d = %s"%s";' % ("wchar_t" if wide else "char", i, L, "hello world"[:int(t[1:])]))
+            rendered.append("p%d" % i)
+        elif t[0] == "q":
+            rendered.append("p%d + %s" % (i, t[1:-1].split(",")[1]))
+        elif t[0] == "a":
+            n = int(t[1:])
+            pre.append("int arr%d[%d] = {%s};" % (i, n, ", ".join(str(x) for x in [1, 2, 2, 3, 4, 5][:n])))
+            rendered.append("arr%d" % i)
+        elif t[0] == "z":
+            rendered.append("arr%d + %s" % (i, t[1:].split(",")[1]))
+        elif t[0] in "bc":
+            size, distinct = (int(x) for x in t[1:-1].split(","))
+            vals = list(range(1, distinct + 1)) + [1] * (size - distinct)
+            if kind == "string":
+                init = '= %s"%s"' % (L, "".join(chr(96 + x) for x in vals))
+                sty = ty
+            else:
+                init = "= {%s}" % ", ".join(str(x) for x in vals) if vals else ""
+                sty = ty if t[0] == "c" else "std::vector<int>"
+            pre.append("%s src%d %s;" % (sty, i, init))
+            rendered.append("src%d.begin()" % i if t[0] == "b" else "src%d" % i)
+        elif t[0] == "e":
+            rendered.append("src%d.end()" % i)
+    decl = "%s c%d%s%s%s;" % (ty, i, "{" if braces else "(", ", ".join(rendered), "}" if braces else ")")
+    return pre, decl
+
+
+def run_ctor(ctx, res, drv):
+    """every constructor form x container type x {braces, parentheses}: ctorSize vs the Known size in the dump, ctorRef vs the size g++
+    gives, and every Known / Impossible fact vs the native size"""
+    cases = []
+    for kind in sorted(CTOR_FORMS):
+        for args in CTOR_FORMS[kind]:
+            for braces in (False, True):
+                cases.append((kind, braces, args))
+    lines = []
+    for (kind, braces, args) in cases:
+        lines.append("ctor %s %s %s" % (kind, "b" if braces else "p", args))
+        lines.append("ctorref %s %s %s" % (kind, "b" if braces else "p", args))
+    rc, out, err = core.run_lines(drv, [], lines)
+    if len(out) != len(lines) or "bad-op" in out:
+        res.oblig("ctor:driver", False, "machinery", "driver answered %d lines for %d ops (%s)" % (len(out), len(lines), [l for l, o in zip(lines, out) if o == "bad-op"][:2]))
+        return
+    units = []      # dict(kind, ty, braces, args, model, ref, excluded, pre, decl, tag)
+    for ci, (kind, braces, args) in enumerate(cases):
+        model, ref = out[2 * ci], out[2 * ci + 1]
+        excluded = ref.endswith(" x")
+        ref = ref.split()[0]
+        if ref == "-":
+            res.count("ctor-form-without-reference-meaning")     # ill-formed / throws / undefined: not compiled
+            continue
+        for ty in CTOR_TYPES[kind]:
+            units.append(dict(kind=kind, ty=ty, braces=braces, args=args, model=model, ref=int(ref), excluded=excluded, tag=None))
+    for (tag, text) in CTOR_EXTRA:
+        units.append(dict(kind=None, ty=None, braces=None, args=None, model=None, ref=None, excluded=False, tag=tag, text=text))
+    # functions of 6 units each
+    fns, per = [], 6
+    for f0 in range(0, len(units), per):
+        body, probes = [], []
+        for j, u in enumerate(units[f0:f0 + per]):
+            if u["tag"]:
+                body.append("    " + u["text"].format(c="c%d" % j, i=j))
+            else:
+                pre, decl = render_ctor(u["kind"], u["ty"], u["braces"], u["args"], j)
+                body += ["    " + x for x in pre] + ["    " + decl]
+            body.append("    P(%d, c%d.size());" % (j + 1, j))
+            probes.append((j + 1, len(body), "c%d" % j))
+            u["fn"], u["probe"] = len(fns), j + 1
+        fns.append(dict(name="g%d" % len(fns), text="int g%d(int a, int b)\n{\n" % len(fns) + "\n".join(body) + "\n    return 0;\n}\n", probes=probes))
+    prelude = PRELUDE.replace("#include <array>\n", "#include <array>\n#include <unordered_set>\n#include <unordered_map>\n")
+    src = prelude + "".join(f["text"] + "\n" for f in fns)
+    src += "int main(int argc, char **argv)\n{\n    int k = std::atoi(argv[1]);\n    switch (k) {\n"
+    src += "".join("    case %d: g%d(2, 3); break;\n" % (k, k) for k in range(len(fns)))
+    src += "    }\n    std::printf(\"DONE\\n\");\n    return 0;\n}\n"
+    if not shutil.which("g++"):
+        res.oblig("ctor:g++-available", False, "machinery", "g++ is needed")
+        return
+    exe, log = native_build(src)
+    if exe is None:
+        res.oblig("ctor:native-build", False, "machinery", "g++ does not compile the constructor forms:\n" + log[-3000:])
+        return
+    def runk(k):
+        rc, o, e = core.sh([exe, str(k)], timeout=600, env={"ASAN_OPTIONS": "detect_leaks=0"})
+        return (rc == 0 and "DONE" in o), dict((int(l.split("=")[0]), int(l.split("=")[1])) for l in o.split("\n") if "=" in l), e[-300:]
+    with ThreadPoolExecutor(WORKERS) as ex:
+        native = list(ex.map(runk, range(len(fns))))
+    bad = [(fns[k]["name"], native[k][2]) for k in range(len(fns)) if not native[k][0]]
+    if bad:
+        res.oblig("ctor:forms-run-clean", False, "validation", "constructor forms do not run clean: %s" % (bad[:2],))
+        return
+    d = os.path.join(ctx.tmp, "ctor")
+    os.makedirs(d, exist_ok=True)
+    chunks = [list(range(i, min(i + 10, len(fns)))) for i in range(0, len(fns), 10)]
+    def one(ci):
+        text, starts = prelude, {}
+        for k in chunks[ci]:
+            starts[k] = text.count("\n") + 1
+            text += fns[k]["text"] + "\n"
+        path = os.path.join(d, "c%d.cpp" % ci)
+        open(path, "w").write(text)
+        if not run_cppcheck_dump(ctx, path):
+            return None
+        toks = parse_dump_values(path + ".dump")
+        os.remove(path + ".dump")
+        return {k: (starts[k], toks) for k in chunks[ci]}
+    with ThreadPoolExecutor(WORKERS) as ex:
+        parts = list(ex.map(one, range(len(chunks))))
+    if any(p is None for p in parts):
+        res.oblig("ctor:dump", False, "machinery", "cppcheck --dump produced no dump")
+        return
+    dumps = {}
+    for p in parts:
+        dumps.update(p)
+    ops, impl, model, refbad = [], [], [], []
+    for u in units:
+        start, toks = dumps[u["fn"]]
+        pid, off, var = fns[u["fn"]]["probes"][u["probe"] - 1]
+        facts = [f for f in size_facts(toks, start + 1 + off, var) if f[0] != "P"]
+        observed = native[u["fn"]][1].get(pid)
+        label = u["tag"] or "%s %s %s" % (u["ty"], "{}" if u["braces"] else "()", u["args"])
+        res.count("ctor-kind:" + (u["kind"] or "extra"))
+        if observed is None:
+            res.oblig("ctor:probe-observed", False, "machinery", "no native output for " + label)
+            return
+        if not u["tag"]:
+            known = [f for f in facts if f[0] == "K" and f[3] == "container-size"]
+            ops.append("ctor %s %s %s #%s" % (u["kind"], "b" if u["braces"] else "p", u["args"], u["ty"]))
+            impl.append(str(known[0][2]) if known else "-")
+            model.append(u["model"])
+            if observed != u["ref"]:
+                refbad.append("%s: reference %d, g++ %d" % (label, u["ref"], observed))
+        for f in facts:
+            res.count("ctor-fact:%s%s" % (f[0], f[1]))
+            if fact_holds(f, observed):
+                res.traces_validated += 1
+                continue
+            key = EXTRA_KEYS.get(u["tag"]) if u["tag"] else ctor_key(u["kind"], u["braces"], u["args"], u["excluded"])
+            desc = "%s %s%d (%s)" % ("Known" if f[0] == "K" else "Impossible", {"P": "", "U": "<=", "L": ">="}[f[1]], f[2], f[3])
+            fn = fns[u["fn"]]
+            res.violation("cppcheck reports %s for `%s` right after its construction (%s), but the program run has size %d there\n%s" %
+                          (desc, var, label, observed, fn["text"]),
+                          dict(kind="ctor", text=fn["text"], fn=fn["name"], probe=pid, var=var, fact=list(f), size=observed, form=label, key=key),
+                          concrete=True, key=key)
+    core.correspond(ctx, res, "ctor-known-size", ops, impl, model, nontrivial=lambda op, out: out != "-")
+    res.oblig("spec:ctorRef-agrees-with-g++", not refbad, "validation", "; ".join(refbad[:5]))
+    res.extra["ctor_forms"] = len(units)
+
+
+
 def load_corpus():
     p = os.path.join(core.VERIF, "corpus", "C02", "cases.json")
     return json.load(open(p)) if os.path.exists(p) else {}
@@ -749,6 +980,8 @@ def run(ctx, res):
     mark("table checks")
     run_straight(ctx, res, drv, meta, 2500 if thorough else 600)
     mark("straight-line correspondence")
+    run_ctor(ctx, res, drv)
+    mark("constructor forms")
     if thorough:
         for _ in range(6):
             run_e2e(ctx, res, 300)
